@@ -81,3 +81,31 @@ contract(
     modifies=None,
     notes="slice: indentation is only applied when pretty is set and the text is non-empty",
 )
+
+# ---- C04: the quoting helpers are pure functions of their arguments and the dialect tables: they write nothing, so the
+# text produced for one literal / identifier / comment cannot depend on what the same generator printed before
+PURE_OPAQUE = {
+    "''.join": dict(returns="str"),
+    "self._replace_line_breaks": dict(returns="str"),
+}
+contract(
+    G, "Generator.escape_str", props=["C04"],
+    types={"text": "str", "escape_backslash": "bool", "delimiter": "str|none", "escaped_delimiter": "str|none", "is_byte_string": "bool",
+           ".dialect": "Dialect", "._escaped_quote_end": "str", ".QUOTE_END": "str"},
+    ensures=["is_str(result)"],
+    modifies=[],
+    opaque=PURE_OPAQUE,
+)
+contract(
+    G, "Generator.sanitize_comment", props=["C04", "C07"],
+    types={"comment": "str"},
+    requires=["len(comment) >= 1"],
+    ensures=["is_str(result)"],
+    modifies=[],
+)
+contract(
+    G, "Generator._replace_line_breaks", props=["C04", "C07"],
+    types={"string": "str"},
+    ensures=["implies(not truthy(self.pretty), result == string)"],
+    modifies=[],
+)
